@@ -126,8 +126,8 @@ func (g *genCtx) leaf() Node {
 	case x < 88:
 		return Node{K: "err", Name: errLeaves[g.r.Intn(len(errLeaves))]}
 	case x < 94 && g.inSend == 0:
-		// (not inside a closure called by a flavors method: a defun evaluated
-		// there loses its parameters on the unchanged tree - not a C07 matter)
+		// (not inside a lambda body: a defun evaluated inside a function body
+		// loses its parameters on the unchanged tree - not a C07 matter)
 		g.nextID++
 		return Node{K: "recur", ID: g.nextID}
 	}
@@ -225,7 +225,7 @@ func (g *genCtx) node(depth int) Node {
 			g.blocks = g.blocks[:len(g.blocks)-1]
 			return n
 		}
-		if k == "send" {
+		if k == "send" || k == "lambda" {
 			g.inSend++
 			n := Node{K: k, ID: id, Kids: g.kids(depth-1, 2)}
 			g.inSend--
